@@ -258,9 +258,18 @@ def run_case(case) -> CaseResult:
         sopts = {'server_host_keys': [hk(k)]}
     elif kind == 'cert':
         k, ca = ident['key'], ident['ca']
-        va, vb = {'valid': (now - 3600, now + 3600),
-                  'expired': (now - 7200, now - 3600),
-                  'future': (now + 3600, now + 7200)}[ident['window']]
+        forever = 0xffffffffffffffff
+        shapes = {'valid': [(now - 3600, now + 3600), (0, forever),
+                            (now - 3600, forever), (0, now + 3600)],
+                  'expired': [(now - 7200, now - 3600), (0, now - 3600),
+                              (now - 7200, now - 1)],
+                  'future': [(now + 3600, now + 7200), (now + 3600, forever),
+                             (now + 60, forever)]}[ident['window']]
+        wshape = ident.get('wshape', 0) % len(shapes)
+        va, vb = shapes[wshape]
+        labels.add('window:%s:%s-%s' % (
+            ident['window'], 'from-0' if va == 0 else 'from-t',
+            'forever' if vb == forever else 'to-t'))
         principals = {'host': [match_name], 'other': [OTHER], 'none': [],
                       'both': [OTHER, match_name]}[ident['principals']]
         gen = hk(ca).generate_host_certificate if ident['type'] == 'host' \
@@ -476,6 +485,7 @@ def strategy(tier: str):
             'ca': pick(['ca1', 'ca1', 'ca2', 'cau']),
             'type': pick(['host', 'host', 'host', 'user']),
             'window': pick(['valid', 'valid', 'valid', 'expired', 'future']),
+            'wshape': st.integers(0, 11),
             'principals': pick(['host', 'host', 'none', 'both', 'other']),
             'corrupt': pick([False, False, False, True]),
             'via_ref': st.booleans()}),
@@ -529,6 +539,7 @@ def strategy(tier: str):
                     'type': 'user' if defect == 'type' else 'host',
                     'window': defect if defect in ('expired', 'future')
                     else 'valid',
+                    'wshape': draw(st.integers(0, 11)),
                     'principals': 'other' if defect == 'principal'
                     else draw(pick(['host', 'none', 'both'])),
                     'corrupt': defect == 'corrupt',
@@ -605,6 +616,10 @@ FAMILIES = [
                              'why:cert:bad-signature', 'why:liar',
                              'via:direct', 'via:tunnel', 'via:proxy',
                              'ca-via-callback',
+                             'window:future:from-t-forever',
+                             'window:future:from-t-to-t',
+                             'window:expired:from-0-to-t',
+                             'window:valid:from-0-forever',
                              'match:key', 'match:cert-authority',
                              'match:revoked', 'shared-known-hosts-object']},
            case_timeout=120),
